@@ -32,7 +32,19 @@ prop("C16", "proof", "Coq proof: decode (encode a ++ rest) = Some (a, rest) for 
 prop("C17", "translation_validation", "translator regenerates the cfg-gate inventory from the sources; Coq theorem that every feature gate is of an additive kind; same battery under every feature set vs one model", "Static half: coq/gen/GenCfg.v is regenerated from /repo on every run and C17_gates_additive re-proved over it (fail-closed on unclassifiable gates). Dynamic half: the same battery of histories (core/iters/print) is executed under 7 (quick) / all 16 (thorough) feature sets and each is compared line by line with the model; par_iter() vs iter().", TB + "rustc's meaning of cfg is trusted; tools/translate.py is trusted.", "6.17")
 prop("C18", "proof", "Coq: Send/Sync derivation over field types regenerated from the sources + schedule-independence theorem for readers; rustc assert_send_sync and 8-thread runs as oracle", "Theorems C18_* (coq/props/C18.v): auto-trait derivation for Arena/Node/NodeId/NodeEdge and the nine iterators over coq/gen/GenTypes.v (regenerated every run), no unsafe / interior-mutability tokens, and for EVERY schedule each reader's observations equal those of the reader running alone. Partial: memory-model data-race freedom is delegated to safe Rust. Tie: rustc checks assert_send_sync instantiations; 8 threads over one &Arena and par_iter compared with a single thread.", TB + "auto-trait rules (AutoTraits.v) are the modelled meaning of rustc's inference.", "6.18")
 
+SRCT = (" Source tie (regenerated on every run): rs2coq (/verif/rs2coq, Rust+syn) translates the Rust functions of id.rs / node.rs / relations.rs / "
+        "siblings_range.rs / arena.rs / traverse.rs (NodeStamp, Node helpers, connect_neighbors, detach_from_siblings, rewrite_parents, transplant, "
+        "insert_with_neighbors, insert_last_unchecked, new_node, free_node, pop_front_free_node, clear, lookups, detach, the eight inserts, append_value, "
+        "remove, remove_subtree, next_traverse, prev_traverse) into Gallina (coq/gen/Gen{Stamp,Rel,Alloc,Ops,Trav}.v); theorems SRC_* "
+        "(coq/props/SRC{alloc,rel,ops,trav}.v, listed among this check's obligations) prove each regenerated definition equal to the hand-written model "
+        "function for every input and arena, so a change to one of these functions breaks a proof obligation of this check whether or not the random "
+        "histories reach it; the check then searches for a failing input.")
+SRC_PIDS = ["C01", "C02", "C03", "C04", "C05", "C06", "C07", "C08", "C09", "C11", "C12", "C13", "C14"]
+
 def main():
+    for pid in SRC_PIDS:
+        P[pid]["text"] += SRCT
+        P[pid]["tech"] += "; + source-regenerated Gallina definitions of the core functions proved equal to the model (SRC_* theorems)"
     checks = []
     for pid in sorted(P):
         p = P[pid]
